@@ -29,6 +29,7 @@ cdef class AsyncListener:
     cdef public bint undone
     cdef public bint heard
     cdef public double last_time
+    cdef public double last_read
     cdef public DNSIncoming last_message
     cdef public object transport
     cdef public object sock_description
